@@ -49,7 +49,7 @@ fn is_multibyte(enc: &'static encoding_rs::Encoding) -> bool {
 
 pub fn check_read(encoding: &str, doc: &Doc, cuts: &[usize]) -> Result<Obs, (String, String)> {
     let enc = encoding_rs::Encoding::for_label(encoding.as_bytes()).unwrap();
-    let cfg = Config { encoding: encoding.to_string(), el: vec![ElH { selector: "*".into(), element: true, ..Default::default() }], doc: vec![DocH { comments: true, text: true, doctype: true, ..Default::default() }], ..Default::default() };
+    let cfg = Config { encoding: encoding.to_string(), probe_attrs: true, el: vec![ElH { selector: "*".into(), element: true, ..Default::default() }], doc: vec![DocH { comments: true, text: true, doctype: true, ..Default::default() }], ..Default::default() };
     let r = engine::run(&cfg, &doc.bytes, cuts).map_err(|e| ("harness".to_string(), e))?;
     let ctx = |m: String| format!("{m}\n encoding: {encoding} cuts: {cuts:?}\n doc: {}", show(&doc.bytes));
     if r.final_res() != Res::Ok {
@@ -104,6 +104,14 @@ pub fn check_read(encoding: &str, doc: &Doc, cuts: &[usize]) -> Result<Obs, (Str
                             if tag[ra.value.0..ra.value.1].first().map_or(false, |b| *b >= 0xef) {
                                 obs.nontrivial = true;
                             }
+                        }
+                    }
+                    // names handed back to the lookup API find their attribute again in every encoding (a name that was read
+                    // as a string is a valid key whatever bytes encode it)
+                    for (n, got, has) in &e.probes {
+                        let want = e.attrs.iter().find(|a| a.name.eq_ignore_ascii_case(n));
+                        if *got != want.map(|a| a.value.clone()) || *has != want.is_some() {
+                            return Err(("attribute-lookup-by-decoded-name".into(), ctx(format!("get_attribute({n:?}) = {got:?}, has_attribute = {has}; attributes() lists {:?} in tag {}", e.attrs.iter().map(|a| (&a.name, &a.value)).collect::<Vec<_>>(), show(tag)))));
                         }
                     }
                     let n = dec(enc, &tag[p.name.0..p.name.1]);
